@@ -180,6 +180,61 @@ def gen_world(r, anp=False, big=False, pods=True, multi_kind=True):
             if r.random() < 0.8:
                 a['egress'] = [arule('egress', k, False) for k in range(r.randint(1, 3))]
             W['anps'].append(a)
+        # overlap bias: a second ANP with the same subject / peers / ports as an existing one but other actions and
+        # another priority, so that precedence (priority order, rule order, Pass delegation) decides the verdict
+        if W['anps'] and r.random() < 0.6:
+            import copy as _copy
+            src_anp = r.choice(W['anps'])
+            twin = _copy.deepcopy(src_anp)
+            twin['name'] = 'anpt'
+            free = [p for p in [0, 1, 2, 5, 7, 10, 50, 998, 999, 1000] if p not in [a['priority'] for a in W['anps']]]
+            twin['priority'] = r.choice(free)
+            for dd in ('ingress', 'egress'):
+                for rule in twin.get(dd) or []:
+                    rule['action'] = r.choice([a for a in ['Allow', 'Deny', 'Pass'] if a != rule['action']])
+                    if r.random() < 0.3:
+                        rule.pop('ports', None)
+                if twin.get(dd) and r.random() < 0.3:
+                    r.shuffle(twin[dd])
+            W['anps'].insert(r.randrange(len(W['anps']) + 1), twin)
+        # layer bias: one coherent precedence stack on the same peers and ports: a higher-precedence ANP that Passes (or
+        # decides) X, a lower-precedence ANP deciding X the other way, and optionally a NetworkPolicy / BANP deciding X
+        if r.random() < 0.45:
+            used = [a['priority'] for a in W['anps']]
+            free = [p for p in [0, 1, 2, 3, 5, 7, 10, 20, 50, 100, 500, 998, 999, 1000] if p not in used]
+            p1, p2 = sorted(r.sample(free, 2))
+            x = [{'portNumber': {'protocol': r.choice(PROTOS), 'port': r.choice(PORTS)}} for _ in range(r.randint(1, 2))]
+            if r.random() < 0.3:
+                a0 = r.choice(PORTS)
+                x = [{'portRange': {'protocol': r.choice(PROTOS), 'start': a0, 'end': r.choice([q for q in PORTS if q >= a0])}}]
+            if r.random() < 0.15:
+                x = None
+            dirs = r.choice([['ingress'], ['egress'], ['ingress', 'egress']])
+            subj = {'namespaces': {}}
+            def stack_rule(dd, act, nm):
+                rl = {'name': nm, 'action': act, 'from' if dd == 'ingress' else 'to': [{'namespaces': {}}]}
+                if x is not None:
+                    rl['ports'] = [dict(q) for q in x]
+                return rl
+            acts = r.choice([('Pass', 'Deny'), ('Pass', 'Allow'), ('Deny', 'Allow'), ('Allow', 'Deny'), ('Pass', 'Pass')])
+            hi = {'name': 'anph', 'priority': p1, 'subject': subj}
+            lo = {'name': 'anpl', 'priority': p2, 'subject': subj}
+            for dd in dirs:
+                hi[dd] = [stack_rule(dd, acts[0], 'h')]
+                lo[dd] = [stack_rule(dd, acts[1], 'l')]
+            pair = [lo, hi]          # given out of priority order
+            for a in pair:
+                W['anps'].insert(r.randrange(len(W['anps']) + 1), a)
+            if r.random() < 0.5 and W['workloads']:
+                npx = {'ns': r.choice(W['workloads'])['ns'], 'name': 'npstack', 'podSelector': {}, 'policyTypes': ['Ingress', 'Egress']}
+                nports = [{'protocol': q['portNumber']['protocol'], 'port': q['portNumber']['port']} for q in (x or []) if 'portNumber' in q]
+                for dd in ('ingress', 'egress'):
+                    if r.random() < 0.7:
+                        rl = {}
+                        if nports and r.random() < 0.7:
+                            rl['ports'] = nports if r.random() < 0.6 else [{'protocol': 'TCP', 'port': r.choice(PORTS)}]
+                        npx[dd] = [rl]
+                W['netpols'].append(npx)
         if r.random() < 0.5:
             b = {'name': 'default', 'subject': asubj()}
             if r.random() < 0.8:
